@@ -40,6 +40,86 @@ def aut_from_json(j):
     return FSA.FSA(g, start_vertices=list(j["starts"]))
 
 
+def build_aut(inp):
+    """the automaton of an input: built from the label view, then edited by the input's history (if any)"""
+    A = aut_from_json(inp["aut"])
+    for e in inp.get("edits", []):
+        if e[0] == "add":
+            A.add_edges([(e[1], e[2], e[3])])
+        elif e[0] == "del" and e[1] in A.vertices():
+            A.delete_vertex(e[1])
+        elif e[0] == "rec":
+            A.recurrent(inplace=True)
+    return A
+
+
+def edited_graph(inp):
+    """reference (pure Python) label view after the input's edit history: {state: {label: state}}, and the start vertices"""
+    g = {v: {lab: w for lab, w in es} for v, es in inp["aut"]["graph"]}
+    for es in list(g.values()):
+        for w in es.values():
+            g.setdefault(w, {})
+    for e in inp.get("edits", []):
+        if e[0] == "add":
+            g.setdefault(e[1], {})
+            g.setdefault(e[2], {})
+            g[e[1]][e[3]] = e[2]
+        elif e[0] == "del" and e[1] in g:
+            _drop(g, e[1])
+        elif e[0] == "rec":
+            while True:
+                dead = [v for v in g if not g[v] or not any(v in es.values() for es in g.values())]
+                if not dead:
+                    break
+                _drop(g, dead[0])
+    return g, list(inp["aut"]["starts"])
+
+
+def _drop(g, v):
+    del g[v]
+    for es in g.values():
+        for lab in [l for l, w in es.items() if w == v]:
+            del es[lab]
+
+
+def final_json(A):
+    """label view of the (edited) automaton, states as they are (ints)"""
+    return {"graph": [[v, [[lab, w] for lab, w in A.graph_dict[v].items()]] for v in A.graph_dict],
+            "starts": list(A.start_vertices)}
+
+
+def rand_edits(rng, j):
+    """a short history of add_edges (new edges, parallel edges between already connected states), delete_vertex and
+    recurrent() on top of the constructed automaton (a deterministic automaton stays deterministic)"""
+    k = nstates(j)
+    labels = sorted(set(labels_of(j)) - {""}) or ["a"]
+    used = {(v, l) for v, es in j["graph"] for l, _ in es}
+    pairs = [(v, w) for v, es in j["graph"] for _, w in es]
+    edits = []
+    for _ in range(rng.randint(1, 4)):
+        r = rng.random()
+        if r < 0.2 and k > 1:
+            v = rng.randrange(k)
+            if v not in j["starts"]:
+                edits.append(["del", v])
+                used = {(t, l) for (t, l) in used if t != v}
+                pairs = [(t, h) for (t, h) in pairs if t != v and h != v]
+                continue
+        if r < 0.3:
+            edits.append(["rec"])
+            continue
+        if pairs and r < 0.65:
+            t, h = rng.choice(pairs)            # a parallel edge
+        else:
+            t, h = rng.randrange(k + 1), rng.randrange(k + 1)
+        l = rng.choice(labels + ["a", "b", "c"])
+        if (t, l) not in used:
+            used.add((t, l))
+            pairs.append((t, h))
+            edits.append(["add", t, h, l])
+    return edits
+
+
 def small_automata(k, labels):
     """all deterministic automata on states 0..k-1 (start 0) over `labels`: each (state, label) -> no edge or a state"""
     cells = [(v, l) for v in range(k) for l in labels]
@@ -93,13 +173,15 @@ def letters_in(j):
     return out or ["a"]
 
 
-def rep_spec_for(rng, j, n=None, drop=False):
+def rep_spec_for(rng, j, n=None, drop=False, ring="Q"):
     names = letters_in(j)
     if drop and len(names) > 1:
         names = names[:-1]       # a label letter without a matrix: KeyError on both sides
     n = n or rng.choice([1, 2, 2, 3])
-    return H.rand_spec(rng, ring="Q", simple=True, n=n, names=names, reassign=False,
-                       kind=rng.choice(["uni", "orth", "diag", "dyadic"]))
+    # generators assigned in random order with mixed dtypes (float then int, complex then real, ...)
+    spec = H.rand_spec(rng, ring=ring, simple=True, n=n, names=names, reassign=rng.random() < 0.2,
+                       kind=rng.choice(["uni", "orth", "diag", "dyadic"]), dtmix=rng.random() < 0.5)
+    return H.no_int32(spec)
 
 
 def branching(j):
@@ -234,7 +316,12 @@ def gen_acc(rng, n):
                 j = random_automaton(rng)
         else:
             j = random_automaton(rng)
-        spec = rep_spec_for(rng, j, drop=rng.random() < 0.05)
+        edits = rand_edits(rng, j) if rng.random() < 0.2 else []
+        spec = rep_spec_for(rng, {"graph": j["graph"] + [[0, [[e[3], 0]]] for e in edits if e[0] == "add"], "starts": j["starts"]},
+                            drop=rng.random() < 0.05)
+        if edits:
+            yield {"aut": j, "edits": edits, "spec": spec, "calls": rand_calls(rng, j)}
+            continue
         if rng.random() < 0.3:
             k = nstates(j)
             calls = all_option_calls(j, pick_L(rng, j, 120), rng.randrange(k))
@@ -266,21 +353,22 @@ def gen_acc_t(rng, n):
 @H.limited(15)
 def run_acc(inp):
     rep = H.build_rep(inp["spec"])
-    A = aut_from_json(inp["aut"])
+    A = build_aut(inp)
     outs = do_calls(rep, A, inp["calls"])
     enum = []
     for c in inp["calls"]:
         s = c["start"] if c["start"] is not None else (A.start_vertices[0] if A.start_vertices else None)
         enum.append(H.guard(lambda: [[w, v] for w, v in A.enumerate_words(c["L"], start_vertex=s, with_states=True)]))
-    return {"outs": outs, "enum": enum}
+    return {"outs": outs, "enum": enum, "final": final_json(A)}
 
 
 def lean_acc(inp, obs):
     spec = H.lean_spec(inp["spec"])
-    spec.update(op="c06.run", aut=inp["aut"], calls=inp["calls"])
+    aut = obs.get("final", inp["aut"]) if isinstance(obs, dict) else inp["aut"]    # the model sees the edited label view
+    spec.update(op="c06.run", aut=aut, calls=inp["calls"])
     ops = [spec]
     for c in inp["calls"]:
-        ops.append({"op": "c06.enum", "aut": inp["aut"], "start": c["start"], "L": c["L"]})
+        ops.append({"op": "c06.enum", "aut": aut, "start": c["start"], "L": c["L"]})
     return ops
 
 
@@ -384,20 +472,22 @@ def gen_paths(rng, n):
         if rng.random() < 0.4:
             c["end"], c["start"] = rng.randrange(k), None
         inp["calls"] = [c]
-        inp["spec"] = rep_spec_for(rng, inp["aut"])
+        lab = {"graph": inp["aut"]["graph"] + [[0, [[e[3], 0]]] for e in inp.get("edits", []) if e[0] == "add"],
+               "starts": inp["aut"]["starts"]}
+        inp["spec"] = rep_spec_for(rng, lab, ring="C" if rng.random() < 0.25 else "Q")
         yield inp
 
 
 @H.limited(15)
 def run_paths(inp):
     rep = H.build_rep(inp["spec"])
-    A = aut_from_json(inp["aut"])
+    A = build_aut(inp)
     c = inp["calls"][0]
     mats, ws = rep.automaton_accepted(A, c["L"], maxlen=c["maxlen"], with_words=True, start_state=c["start"],
                                       end_state=c["end"], edge_words=True)
     mats = np.asarray(mats)
-    graph = {v: dict(A.graph_dict[v]) for v in A.graph_dict}
-    want = ref_words(graph, list(A.start_vertices), c["L"], c["maxlen"], c["start"], c["end"])
+    graph, starts = edited_graph(inp)      # independent of the FSA class
+    want = ref_words(graph, starts, c["L"], c["maxlen"], c["start"], c["end"])
     out = {"words": list(ws), "want": want, "count_ok": len(ws) == len(mats), "nomats": None}
     worst = 0.0
     for w, m in zip(ws, mats):
@@ -417,8 +507,9 @@ def judge_paths(inp, obs, lr):
     c = inp["calls"][0]
     tags = {"maxlen": c["maxlen"], "dir": "end" if c["end"] is not None else "start"}
     if "exc" in obs:
-        verts = {v for v, _ in inp["aut"]["graph"]} | {w for _, es in inp["aut"]["graph"] for _, w in es}
-        s0 = c["start"] if c["start"] is not None else (inp["aut"]["starts"] or [None])[0]
+        g, starts = edited_graph(inp)
+        verts = set(g)
+        s0 = c["start"] if c["start"] is not None else (starts or [None])[0]
         if obs["exc"] == "KeyError" and c["end"] is None and s0 not in verts:
             return None   # start state that is not a vertex of the automaton: out_dict[state] raises
         if obs["exc"] == "IndexError" and not inp["aut"]["starts"]:
@@ -483,6 +574,9 @@ def run_freeo(inp):
     err = max([float(np.max(np.abs(m - rep[w]))) / (1 + H.norm_bound(rep, list(w))) for w, m in zip(ws, mats)] + [0.0])
     return {"words": sorted(ws), "want": want, "err": err, "reduced": all(W.simplify_word(w) == w for w in ws),
             "fwl": sorted(rep.free_words_of_length(inp["L"])),
+            "fwlt": sorted(rep.free_words_less_than(inp["L"])),
+            "want_lt": sorted("".join(w) for l in range(inp["L"]) for w in itertools.product(alph, repeat=l)
+                              if all(w[i + 1] != H.swapcase(w[i]) for i in range(l - 1))),
             "want_len": sorted("".join(w) for w in itertools.product(alph, repeat=inp["L"])
                                if all(w[i + 1] != H.swapcase(w[i]) for i in range(inp["L"] - 1)))}
 
@@ -494,6 +588,9 @@ def judge_freeo(inp, obs, lr):
         return {"expected": obs["want"][:40], "observed": obs["words"][:40], "tags": {"what": "freely reduced words, each once", "maxlen": inp["maxlen"]}}
     if not obs["err"] <= 1e-8:
         return {"expected": "images of the words", "observed": obs["err"], "tags": {"what": "images"}}
+    if obs["fwlt"] != obs["want_lt"]:
+        # (the docstring says "inclusive", the name and the code say < length: either way each word at most once)
+        return {"expected": obs["want_lt"][:40], "observed": obs["fwlt"][:40], "tags": {"what": "free_words_less_than: each freely reduced word of length < L once"}}
     if obs["fwl"] != obs["want_len"]:
         return {"expected": obs["want_len"][:40], "observed": obs["fwl"][:40], "tags": {"what": "free_words_of_length"}}
     return None
@@ -547,7 +644,7 @@ def judge_memo(inp, obs, lr):
 CLAUSES = [
     Clause("accepted_corr", "corr", gen_acc_t, run_acc, judge_acc, lean=lean_acc, site="Representation.automaton_accepted",
            budget={"quick": 200, "thorough": 9000},
-           what="automaton_accepted vs the Lean model over Q: small automata (all <=3 states/<=2 labels in thorough, sampled in quick), random <=8 states/4 labels, built-ins, k-multiples (multi-letter labels), hidden vertices, several start vertices; L=0..5; all option combinations x start/end state; memo-reuse sequences; (word, matrix) lists compared as multisets; enumerate_words vs model"),
+           what="automaton_accepted vs the Lean model over Q: small automata (all <=3 states/<=2 labels in thorough, sampled in quick), random <=8 states/4 labels, built-ins, k-multiples (multi-letter labels), hidden vertices, several start vertices, automata edited after construction (add_edges / delete_vertex); L=0..5; all option combinations x start/end state; memo-reuse sequences; (word, matrix) lists compared as multisets; enumerate_words vs model"),
     Clause("free_corr", "corr", gen_free, run_free, judge_free, lean=lean_free, site="fsa.free_automaton / freely_reduced_elements",
            budget={"quick": 60, "thorough": 2400},
            what="free_automaton graph, freely_reduced_elements, free_words_of_length/less_than vs model"),
